@@ -55,6 +55,19 @@ def run(ctx):
         return lines
     VC.run(ctx, [swcfg], gen2, n // 2, preds=(VC.fault_pred, VC.oracle_pred), nontrivial=lambda c, l, o: any(x.startswith('sw2') for x in l),
            label='C06 swap2 hand-over')
+    # a SmallVector that adopted a heap buffer SMALLER than its inline capacity (swap2 hand-over from a small amc::vector), then
+    # assigned / move-assigned / swapped with inline vectors holding more elements than that buffer: the adopted block must go back
+    def gen_adopt(rng, c, k):
+        small = rng.randrange(1, 3)                  # capacity of the buffer that will be adopted (< N = 3)
+        lines = ['apr 0 ' + V.vals(rng, rng.randrange(4, 7)), 'apr2 0 ' + V.vals(rng, small), 'sw2 0 0',
+                 'apr 1 ' + V.vals(rng, rng.randrange(small + 1, 4))]
+        lines.append(rng.choice(['mov 0 1', 'cpy 0 1', 'swp 0 1', 'mov 0 1']))
+        for _ in range(4):
+            lines.append(rng.choice([f'push {rng.randrange(2)} {rng.randrange(1, 100)}', f'shr {rng.randrange(2)}', 'sw2 0 0', 'mov 1 0', f'clr {rng.randrange(2)}']))
+        lines.append('new')
+        return lines
+    VC.run(ctx, [swcfg], gen_adopt, max(8, n // 6), preds=(VC.fault_pred, VC.oracle_pred, ledger_pred), nontrivial=lambda c, l, o: True,
+           label='C06 adopted small buffer')
     # ... and between size types of different width: a buffer whose capacity does not fit the narrower size_type must not change owner
     # (its capacity would be narrowed and the block handed back with a wrong count)
     swcfg8 = V.VecCfg('small', 3, 'U8', 'ntr', alloc=0, pool=2, partner=('std', 0, 'U32', 0), pool2=2)
